@@ -392,6 +392,30 @@ class Trace:
         self._ev({"op": "restore", "inst": inst, "cls": cls, "ps": ps, "blob": fields, "out": out})
         return inst if out["t"] == "inst" else None
 
+    def restore_raw(self, cls, ps, data):
+        """from_serialized on arbitrary bytes (possibly not JSON, not an object of hex strings)"""
+        del _entlog()[:]
+        fields, malformed = {}, True
+        try:
+            f = json.loads(data.decode("ascii"))
+            if isinstance(f, dict) and all(isinstance(k, str) and isinstance(v, str) for k, v in f.items()):
+                fields, malformed = f, False
+        except Exception:
+            pass
+        self.n += 1
+        inst = "i%d" % self.n
+        try:
+            o = self._cls(cls).from_serialized(data, params=self.uni.params[ps])
+            self.objs[inst] = o
+            out = {"t": "inst", "outbound": hx(getattr(o, "outbound_message", b""))}
+        except Exception as e:
+            out = {"t": "err", "v": exc_name(e)}
+        ev = {"op": "restore", "inst": inst, "cls": cls, "ps": ps, "blob": fields, "out": out, "raw": hx(data[:200])}
+        if malformed:
+            ev["malformed"] = 1
+        self._ev(ev)
+        return inst if out["t"] == "inst" else None
+
     def consts(self, ps):
         del _entlog()[:]
         P = self.uni.params[ps]
